@@ -88,6 +88,15 @@ func (e *rtpEncoderMJPEG) encode(payload unit.Payload) ([]*rtp.Packet, error) {
 type rtpEncoderOpus rtpsimpleaudio.Encoder
 
 func (e *rtpEncoderOpus) encode(payload unit.Payload) ([]*rtp.Packet, error) {
+	// Opus packets cannot be fragmented.
+	// check them in advance to avoid consuming sequence numbers in case of errors.
+	for _, packet := range payload.(unit.PayloadOpus) {
+		if len(packet) > e.PayloadMaxSize {
+			return nil, fmt.Errorf("packet size (%d) is greater than maximum payload size (%d)",
+				len(packet), e.PayloadMaxSize)
+		}
+	}
+
 	pts := int64(0)
 	packets := make([]*rtp.Packet, len(payload.(unit.PayloadOpus)))
 
